@@ -16,15 +16,15 @@ func init() {
 			"not decided: window maintenance across steps (previousPoints overlap reuse, ReduceDelta), inclusive/exclusive window edges and the numerical values of the kernels (value-level); a structural diff against the reference kernels was rejected because it fires on behaviour-preserving rewrites",
 		}})
 	property(&Property{ID: "C04", Level: "other",
-		Rules:       []string{"R-ACCRESET", "R-INTCONV", "R-SAMPLE0", "R-ONEPERSTEP", "R-PAIRING", "R-SORTEDNAMES", "R-TABLETS", "R-AGGNAME", "R-SHORTCUT", "R-ACCNONEMPTY", "R-ALLOCSIZE", "R-BATCHIDX", "R-VALIDEVERY", "R-REFPORT-AGG", "R-FILLRANGE", "R-COPYWRITE", "R-SCALAREND", "R-STEPEVERY"},
-		Scope:       map[string][]string{"R-STEPEVERY": {"execution/aggregate"}, "R-SCALAREND": {"ggregate"}, "R-COPYWRITE": {"execution/aggregate"}, "R-FILLRANGE": {"execution/aggregate"}, "R-BATCHIDX": {"execution/aggregate"}, "R-PAIRING": {"execution/aggregate", "model.VectorPool"}, "R-SAMPLE0": {"execution/aggregate"}, "R-SHORTCUT": {"execution/aggregate"}, "R-SORTEDNAMES": {"execution/aggregate"}, "R-ONEPERSTEP": {"execution/aggregate"}},
+		Rules:       []string{"R-ACCRESET", "R-INTCONV", "R-SAMPLE0", "R-ONEPERSTEP", "R-PAIRING", "R-SORTEDNAMES", "R-TABLETS", "R-AGGNAME", "R-SHORTCUT", "R-ACCNONEMPTY", "R-ALLOCSIZE", "R-BATCHIDX", "R-VALIDEVERY", "R-REFPORT-AGG", "R-FILLRANGE", "R-COPYWRITE", "R-SCALAREND", "R-STEPEVERY", "R-REFERRORS"},
+		Scope:       map[string][]string{"R-REFERRORS": {"execution/aggregate"}, "R-STEPEVERY": {"execution/aggregate"}, "R-SCALAREND": {"ggregate"}, "R-COPYWRITE": {"execution/aggregate"}, "R-FILLRANGE": {"execution/aggregate"}, "R-BATCHIDX": {"execution/aggregate"}, "R-PAIRING": {"execution/aggregate", "model.VectorPool"}, "R-SAMPLE0": {"execution/aggregate"}, "R-SHORTCUT": {"execution/aggregate"}, "R-SORTEDNAMES": {"execution/aggregate"}, "R-ONEPERSTEP": {"execution/aggregate"}},
 		Explanation: "Structural necessary conditions of aggregation: every accumulator is completely reset per step (tables are reused for every batch); the k/quantile parameter is NaN/range-tested before it is used as an integer; a parameter absent at a step is not indexed; one step vector per step; IDs and values are written in pairs; the grouping names handed to the label hashes are the sorted slice.",
 		NotDecided: []string{
 			"not decided: the group keys/labels themselves, the reduction values, NaN ordering in min/max/topk, tie handling (value-level)",
 		}})
 	property(&Property{ID: "C05", Level: "other",
-		Rules:       []string{"R-BOOLNAME", "R-LABELBUILD", "R-SORTEDNAMES", "R-LABELFRESH", "R-DUPBOOK", "R-SHORTCUT", "R-BATCHIDX", "R-OPTABLE", "R-REFLABELS", "R-COPYWRITE", "R-SCALAREND", "R-STEPEVERY", "R-DROPNAMESET"},
-		Scope:       map[string][]string{"R-STEPEVERY": {"execution/binary"}, "R-SCALAREND": {"scalarOperator"}, "R-COPYWRITE": {"execution/binary"}, "R-BATCHIDX": {"execution/binary"}, "R-SHORTCUT": {"execution/binary"}, "R-SORTEDNAMES": {"execution/binary"}},
+		Rules:       []string{"R-BOOLNAME", "R-LABELBUILD", "R-SORTEDNAMES", "R-LABELFRESH", "R-DUPBOOK", "R-SHORTCUT", "R-BATCHIDX", "R-OPTABLE", "R-REFLABELS", "R-COPYWRITE", "R-SCALAREND", "R-STEPEVERY", "R-DROPNAMESET", "R-REFERRORS"},
+		Scope:       map[string][]string{"R-REFERRORS": {"execution/binary"}, "R-STEPEVERY": {"execution/binary"}, "R-SCALAREND": {"scalarOperator"}, "R-COPYWRITE": {"execution/binary"}, "R-BATCHIDX": {"execution/binary"}, "R-SHORTCUT": {"execution/binary"}, "R-SORTEDNAMES": {"execution/binary"}},
 		Explanation: "Structural necessary conditions of binary operators: both operators decide about dropping the metric name from the operator type and the bool modifier; result label sets are never grown by raw appends; matching label names handed to the hashes are sorted; label sets are edited in place only on fresh copies (the operands may be the same pooled selector); the duplicate-match bookkeeping of a step is recorded for every matched sample before the comparison filter can skip it.",
 		NotDecided: []string{
 			"not decided: which pairs match, the values, error text and the step at which an ambiguous match is reported (value-level); an operator missing from the operation tables falls back correctly and is covered by C08",
@@ -44,7 +44,7 @@ func init() {
 			"trusted: the induction over the AST that combines the obligations, the parser's type checking of argument kinds",
 		}})
 	property(&Property{ID: "C09", Level: "other",
-		Rules:       []string{"R-SLOTPTR", "R-LABELFRESH", "R-MATCHEQ", "R-ATOFFSET", "R-NODECOPY", "R-MEMOKEY", "R-MATCHPOS"},
+		Rules:       []string{"R-SLOTPTR", "R-LABELFRESH", "R-MATCHEQ", "R-ATOFFSET", "R-NODECOPY", "R-MEMOKEY", "R-MATCHPOS", "R-FILTERALL", "R-MATCHGROW", "R-DROPEXACT"},
 		Explanation: "Structural necessary conditions of the logical optimizers: every traversal hands out pointers to real slots of the tree, so a replacement (made after in-place edits of the replaced node) lands in the tree in every syntactic position; matcher slices are edited in place only on fresh copies; the subset test that licenses replacing a selector compares name, type and value of the matchers.",
 		NotDecided: []string{
 			"not decided: that the rewrites preserve semantics (filter evaluation on absent labels, repeated label names, matcher union). Three defects of that kind exist on the pinned tree and are reported in DESIGN.md; no exact shape rule for them was found",
@@ -86,7 +86,7 @@ func init() {
 			"not decided: wrapping fidelity of the final error; the once-guarded loaders do not latch their error (no plan was found in which that yields a successful result)",
 		}})
 	property(&Property{ID: "C16", Level: "other",
-		Rules:       []string{"R-HINTXFER", "R-HINTRANGE", "R-SELKEY", "R-NODECOPY", "R-MEMOKEY", "R-REFPORT-HINTS"},
+		Rules:       []string{"R-HINTXFER", "R-HINTRANGE", "R-SELKEY", "R-NODECOPY", "R-MEMOKEY", "R-REFPORT-HINTS", "R-SORTCOPY"},
 		Explanation: "Structural necessary conditions of select hints: per node kind the Func/Grouping/By hints are transferred to the children exactly as the reference derives them from the path (shape of the pinned extractFuncFromPath/extractGroupsFromPath re-read on every run); the querier range and hinted range are the same values from one range computation; the select-cache key covers every select parameter that can differ between two selects (range start and end, step, function, grouping, by).",
 		NotDecided: []string{
 			"not decided: the start/end arithmetic; sufficiency of the range under optimizer rewrites (value-level); the order of grouping labels in the hint (sorted in place by the aggregation operators, reported in DESIGN.md)",
